@@ -301,6 +301,95 @@ def d1_region_sizes(ctx: Ctx):
         ctx.check('isinstance(' in t and 'int' in t and 'None' in t, UNBOX, cs, 'concrete_size', 'only an integer length is concrete', 'changed')
 
 
+def _fstring_text(e: ast.AST | None) -> str:
+    """The literal parts of an f-string, placeholders written as {name}."""
+    if isinstance(e, ast.JoinedStr):
+        return ''.join(v.value if isinstance(v, ast.Constant) else '{' + norm(v.value) + '}' for v in e.values)  # type: ignore
+    if isinstance(e, ast.Constant) and isinstance(e.value, str):
+        return e.value
+    if isinstance(e, ast.BinOp) and isinstance(e.op, ast.Add):
+        return _fstring_text(e.left) + _fstring_text(e.right)
+    return ''
+
+
+def p2_range_loops(ctx: Ctx):
+    """`for i in range(start, stop, step)` in the interpreter: the three values are fixed before the first trip, the loop
+    counts up to (below) `stop` for a positive step and down to (above) it for a negative one.  The emitted C++ loop has
+    to do the same: (a) every emitted `for (...; <test>; c += step)` for a stepped range takes its test from the one
+    helper that looks at the sign of the step; the helper's table; (b) in a for statement, `stop` and `step` are read
+    through `_range_bound_once`, which holds a bound in a constant when the body can change what it reads."""
+    et = ctx.fn(EMITTER, 'CppEmitter._range_exit_test')
+    params = [a.arg for a in et.args.args]
+    if len(params) != 4:
+        raise ShapeError('_range_exit_test: (counter, stop, step_expr, step) expected')
+    c, stop, se, st = params
+    body = [s for s in et.body if not (isinstance(s, ast.Expr) and isinstance(s.value, ast.Constant))]
+    lit = body[0] if body and isinstance(body[0], ast.If) else None
+    ok = lit is not None and norm(lit.test) == f'isinstance({se}, Integer)' and len(lit.body) == 1 and isinstance(lit.body[0], ast.Return) and isinstance(lit.body[0].value, ast.IfExp)
+    if ok:
+        ie = lit.body[0].value      # type: ignore
+        pos = norm(ie.test) in (f'{se}.val > 0', f'0 < {se}.val')
+        neg = norm(ie.test) in (f'{se}.val < 0', f'0 > {se}.val')
+        up, down = (ie.body, ie.orelse) if pos else (ie.orelse, ie.body)
+        ok = (pos or neg) and _fstring_text(up) == f'{{{c}}} < {{{stop}}}' and _fstring_text(down) == f'{{{c}}} > {{{stop}}}'
+    ctx.check(ok, EMITTER, lit or et, 'CppEmitter._range_exit_test', 'literal step: positive -> counter < stop, negative -> counter > stop', 'changed')
+    last = body[-1] if body else None
+    txt = _fstring_text(last.value) if isinstance(last, ast.Return) else ''
+    ok = txt in (f'({{{st}}} > 0 ? {{{c}}} < {{{stop}}} : {{{c}}} > {{{stop}}})', f'({{{st}}} < 0 ? {{{c}}} > {{{stop}}} : {{{c}}} < {{{stop}}})')
+    ctx.check(ok, EMITTER, last or et, 'CppEmitter._range_exit_test', 'run-time step: the test is selected by the sign of the step', f'emits `{txt}`')
+    # every stepped loop header takes its test from the helper
+    n = 0
+    for q in ('CppEmitter._for_header', 'CppEmitter._emit_range'):
+        fn = ctx.fn(EMITTER, q)
+        for m in [x for x in ast.walk(fn) if isinstance(x, ast.Match)]:
+            for cs in m.cases:
+                if not (isinstance(cs.pattern, ast.MatchClass) and dotted(cs.pattern.cls) == 'Range3'):
+                    continue
+                heads = [x for x in ast.walk(cs) if isinstance(x, ast.JoinedStr) and _fstring_text(x).startswith('for (')]
+                tests = {t.id for s in ast.walk(cs) if isinstance(s, ast.Assign) and call_name(s.value) == 'self._range_exit_test' for t in s.targets if isinstance(t, ast.Name)}
+                for h in heads:
+                    n += 1
+                    full = _fstring_text(h)
+                    parent_text = full
+                    # the header may be split over adjacent f-strings: look at the whole call / return expression
+                    for holder in ast.walk(cs):
+                        if isinstance(holder, (ast.Call, ast.Return)) and any(x is h for x in ast.walk(holder)):
+                            parts = [x for x in ast.walk(holder) if isinstance(x, ast.JoinedStr)]
+                            parent_text = ''.join(_fstring_text(x) for x in parts)
+                            break
+                    segs = parent_text.split(';')
+                    ok = len(segs) >= 3 and segs[1].strip().strip('{}') in tests
+                    ctx.check(ok, EMITTER, h, q, 'a stepped range loop takes its exit test from _range_exit_test', f'header `{parent_text[:100]}`: a fixed `<` never enters a loop that counts down')
+    if n < 2:
+        raise ShapeError(f'only {n} stepped range headers found')
+    # (b) bounds fixed before the first trip
+    fh = ctx.fn(EMITTER, 'CppEmitter._for_header')
+    want = {'Range1': ['iterable.arg'], 'Range2': ['iterable.second'], 'Range3': ['iterable.args[1]', 'iterable.args[2]']}
+    for m in [x for x in ast.walk(fh) if isinstance(x, ast.Match)]:
+        for cs in m.cases:
+            kind = dotted(cs.pattern.cls) if isinstance(cs.pattern, ast.MatchClass) else None
+            if kind not in want:
+                continue
+            for sub in want[kind]:
+                ks = [k for k in ast.walk(cs) if isinstance(k, ast.Call) and k.args and norm(k.args[0]) == sub]
+                ok = bool(ks) and all(call_name(k) == 'self._range_bound_once' and len(k.args) >= 3 and norm(k.args[2]) == 'writes' for k in ks)
+                ctx.check(ok, EMITTER, cs.pattern, 'CppEmitter._for_header', f'{kind}: `{sub}` is read once, ahead of the loop, when the body can change it',
+                          f'read through {[call_name(k) for k in ks]}: the C++ header re-evaluates it on every trip (`for i in range(n): n = n - 1` runs n/2 times)')
+    el = ctx.fn(EMITTER, 'CppEmitter._emit_for_loop')
+    ks = [k for k in calls_in(el) if call_name(k) == 'self._for_header']
+    ok = len(ks) == 1 and any(norm(a) == 'self._loop_writes(stmt)' for a in list(ks[0].args) + [kw.value for kw in ks[0].keywords])
+    ctx.check(ok, EMITTER, el, 'CppEmitter._emit_for_loop', 'the header is built with the names this loop writes', 'not passed')
+    bo = ctx.fn(EMITTER, 'CppEmitter._range_bound_once')
+    t = norm(bo, 4000)
+    ok = 'if reads & rebound or (reads & stored and (not is_len)):' in t and "self.writer.add_line(f'const auto {tmp} = {code};')" in t and 'reads = LiveVars.analyze(e)' in t \
+        and 'is_len = isinstance(e, Len) and isinstance(e.arg, Var)' in t
+    ctx.check(ok, EMITTER, bo, 'CppEmitter._range_bound_once', 'snapshot iff the bound reads a name the loop rebinds, or (other than as len(x)) a list it stores into', 'changed')
+    lw = ctx.fn(EMITTER, 'CppEmitter._loop_writes')
+    t = norm(lw, 4000)
+    ok = 'for phi in self.def_use.phis.get(stmt, ()):' in t and 'prev = same_object_defs(self.def_use.defs[i])' in t and '(stored if same_object else rebound).add(phi.name)' in t
+    ctx.check(ok, EMITTER, lw, 'CppEmitter._loop_writes', 'every name with a loop-header phi is classified; "same object" follows same_object_defs (C13.D1)', 'changed')
+
+
 EXPLANATION = (
     'Thin structural claim over the C++ backend (ast only). Decided: (T1) every <cmath> table row names std::<op> for the '
     'node class of the same operation in the table of its arity; infix/prefix arithmetic; Abs split by domain; float '
@@ -321,12 +410,24 @@ RULES = [
     Rule('C11.X1', 'every node kind is emitted or refused; no signature => CppEmitError; widening only under REAL', x1_emit_or_refuse, 40, 'X'),
     Rule('C11.G1', 'explicit roundings are emitted as casts only when the context is exactly a machine format', g1_cast_is_round, 5, 'G'),
     Rule('C11.G2', 'a list name is bound as a C++ reference to another variable only when neither is ever rebound', g2_reference_binding, 4, 'G'),
+    Rule('C11.P2', 'range loops: the exit test follows the sign of the step; stop and step are fixed before the first trip', p2_range_loops, 11, 'P,T'),
     Rule('C11.D1', 'static array lengths: the length of a region is the meet of every contribution, unknown absorbing', d1_region_sizes, 4, 'D'),
 ]
 
 from ..selftest import Mutant  # noqa: E402
 
 MUTANTS = [
+    Mutant('stepped-loop-always-counts-up', EMITTER, "                test = self._range_exit_test(target, stop, iterable.args[2], step)\n                return f'for ({decl} = {start}; {test}; {target} += {step})'",
+           "                return f'for ({decl} = {start}; {target} < {stop}; {target} += {step})'", 'C11.P2',
+           'finding F47 before its repair: for i in range(n, 0, -1) is an empty loop in C++'),
+    Mutant('materialised-range-always-counts-up', EMITTER, "                    f'for ({int_ty} {ctr} = {start_cast}; {test}; '", "                    f'for ({int_ty} {ctr} = {start_cast}; {ctr} < {stop_cast}; '", 'C11.P2'),
+    Mutant('negative-literal-step-tests-below', EMITTER, "            return f'{counter} < {stop}' if step_expr.val > 0 else f'{counter} > {stop}'", "            return f'{counter} < {stop}' if step_expr.val != 0 else f'{counter} > {stop}'", 'C11.P2'),
+    Mutant('runtime-step-sign-ignored', EMITTER, "        return f'({step} > 0 ? {counter} < {stop} : {counter} > {stop})'", "        return f'{counter} < {stop}'", 'C11.P2'),
+    Mutant('loop-stop-re-read-every-trip', EMITTER, "                stop = self._range_bound_once(iterable.arg, ctx, writes)", "                stop = self._visit_expr(iterable.arg, ctx)", 'C11.P2',
+           'finding F48 before its repair: for i in range(n): n = n - 1 runs half as often compiled'),
+    Mutant('loop-step-re-read-every-trip', EMITTER, "                step = self._range_bound_once(iterable.args[2], ctx, writes)", "                step = self._visit_expr(iterable.args[2], ctx)", 'C11.P2'),
+    Mutant('loop-writes-not-passed', EMITTER, "            stmt.iterable, target, decl, target_def, ctx, self._loop_writes(stmt),\n", "            stmt.iterable, target, decl, target_def, ctx,\n", 'C11.P2'),
+    Mutant('element-stores-never-snapshot', EMITTER, "        if reads & rebound or (reads & stored and not is_len):", "        if reads & rebound:", 'C11.P2'),
     Mutant('unknown-length-repinned', UNBOX, "        if region in sizes and sizes[region] != k:\n            sizes[region] = None\n        else:\n            sizes[region] = k",
            "        prev = sizes.get(region, k)\n        sizes[region] = k if prev is None or prev == k else None", 'C11.D1',
            'seeded change C11c: `ys = [x + 1 for x in xs]` in one arm, a 3-literal in the other -> std::array<double, 3>'),
